@@ -488,6 +488,11 @@ class SpecMixin:
             if m in ("upper", "lower", "strip", "lstrip", "rstrip") and not e.args:
                 f = self.get_uf("str_" + m, [smt.StrS], smt.StrS)
                 return SV(smt.mk_str(f(Val.s(base.t))), "str")
+            if m == "replace" and len(e.args) == 2 and base.ty == "str":
+                # the same uninterpreted str.replace the executor uses: a clause `r == s.replace(a, b)` pins the call down
+                f = self.get_uf("str_replace", [smt.StrS, smt.StrS, smt.StrS], smt.StrS)
+                a0, a1 = self.sv(e.args[0], ctx), self.sv(e.args[1], ctx)
+                return SV(smt.mk_str(f(Val.s(base.t), Val.s(a0.t), Val.s(a1.t))), "str")
             if m == "translate" and len(e.args) == 1:
                 f = self.get_uf("str_translate", [smt.StrS, Val], smt.StrS)
                 return SV(smt.mk_str(f(Val.s(base.t), self.sv(e.args[0], ctx).t)), "str")
